@@ -7,7 +7,7 @@ abbrev Bytes := ByteArray
 
 /-- canonical image of ZSTD_ErrorCode used by the correspondence (classes, not codes) -/
 inductive Err where
-  | srcSizeWrong | dstTooSmall | corruption | checksumWrong | dictWrong | dictCorrupted
+  | srcSizeWrong | dstTooSmall | corruption | corruptionAt (site : String) | srcSizeWrongAt (site : String) | checksumWrong | dictWrong | dictCorrupted
   | windowTooLarge | unsupported | prefixUnknown | tableLogTooLarge | literalsHeaderWrong | generic
   /-- the input is a legacy (v0.5–v0.7) frame: not modelled -/
   | legacy
@@ -19,10 +19,15 @@ deriving DecidableEq, Repr, Inhabited
 
 def Err.cls : Err → String
   | .srcSizeWrong => "srcSize_wrong" | .dstTooSmall => "dstSize_tooSmall" | .corruption => "corruption"
+  | .corruptionAt _ => "corruption" | .srcSizeWrongAt _ => "srcSize_wrong"
   | .checksumWrong => "checksum_wrong" | .dictWrong => "dictionary_wrong" | .dictCorrupted => "dictionary_corrupted"
   | .windowTooLarge => "window_too_large" | .unsupported => "unsupported" | .prefixUnknown => "prefix_unknown"
   | .tableLogTooLarge => "tableLog_tooLarge" | .literalsHeaderWrong => "literals_headerWrong" | .generic => "generic"
   | .legacy => "legacy" | .lax w => "lax:" ++ w | .modelInternal w => "MODEL-INTERNAL:" ++ w
+
+/-- where the model rejected (debugging aid for the correspondence; not part of the compared class) -/
+def Err.site : Err → String
+  | .corruptionAt s => s | .srcSizeWrongAt s => s | _ => ""
 
 abbrev R := Except Err
 
